@@ -222,6 +222,9 @@ def mk(op, *a):
                     v &= m if m else v
                     if v == 0:
                         return C(0)
+        if op == '&' and v is not None and v >= 0 and len(rest) == 1 and rest[0][0] in ('|', '^'):
+            # distribute a constant mask over | and ^
+            return mk(rest[0][0], *[mk('&', y, C(v)) for y in rest[0][1:]])
         if op == '*' and v == 0:
             return C(0)
         if op == '*' and v is not None and len(rest) == 1 and rest[0][0] == '+':
